@@ -356,6 +356,12 @@ fn check_c13(ctx: &mut Ctx, files: &Files, seed_note: &str) {
         let res = run_project_at(ctx, &c, &root, false);
         outs.push((res.after.bytes(), res.outcome.verdict.clone(), res.expect));
     }
+    if outs[0].2.out_of_domain.is_some() {
+        // (D7 etc.: nothing about such a project is judged, the history checks below included)
+        ctx.count("out_of_domain", 1);
+        ctx.scratch.discard(&root);
+        return;
+    }
     // an only-if-needed build into a directory without outputs must give what a build gives
     if outs[0].1.is_ok() && outs[1].1.is_ok() {
         for trailing in [true, false] {
